@@ -31,6 +31,40 @@ func assertFunctions(fns []*funcDef) error {
 	return nil
 }
 
+// assertNoNullItems rejects definitions whose lists contain null items
+// (e.g. "steps: [~]"), which decode to nil pointers.
+func assertNoNullItems(def *definition) error {
+	for _, fn := range def.Functions {
+		if fn == nil {
+			return errNullListItem
+		}
+	}
+	for _, cond := range def.Preconditions {
+		if cond == nil {
+			return errNullListItem
+		}
+	}
+	steps := append([]*stepDef{
+		def.HandlerOn.Exit, def.HandlerOn.Success,
+		def.HandlerOn.Failure, def.HandlerOn.Cancel,
+	}, def.Steps...)
+	for i, step := range steps {
+		if step == nil {
+			if i < 4 {
+				// handlers are optional
+				continue
+			}
+			return errNullListItem
+		}
+		for _, cond := range step.Preconditions {
+			if cond == nil {
+				return errNullListItem
+			}
+		}
+	}
+	return nil
+}
+
 // assertStepDef validates the step definition.
 func assertStepDef(def *stepDef, funcs []*funcDef) error {
 	// Step name is required.
